@@ -23,8 +23,9 @@
        AMOUNT BALANCE SENDER SOURCE SELF_ADDRESS NOW LEVEL CHAIN_ID reading an [env] record
      stage 3 (MODELS ONLY so far, outside every theorem: typecheck_nr rejects them): sets and maps (EMPTY_SET, EMPTY_MAP,
        MEM, GET, UPDATE, GET_AND_UPDATE, SIZE/ITER on sets and maps, MAP on maps, set/map literals)
+     stage 3 (models only): LAMBDA, EXEC, APPLY (closures as { PUSH ty literal ; PAIR ; body })
      later stages:
-       LAMBDA/EXEC/APPLY, environment instructions, PACK/UNPACK, hashes. *)
+       environment instructions, PACK/UNPACK, hashes. *)
 From Coq Require Import List ZArith NArith Bool Arith.
 From Coq.Strings Require Import Byte.
 From PV Require Import Base.Bytes.
@@ -43,7 +44,8 @@ Inductive ty : Type :=
 | TOr (a b : ty)
 | TList (a : ty)
 | TSet (k : ty)
-| TMap (k v : ty).
+| TMap (k v : ty)
+| TLambda (a b : ty).
 
 Fixpoint ty_eqb (x y : ty) : bool :=
   match x, y with
@@ -55,6 +57,7 @@ Fixpoint ty_eqb (x y : ty) : bool :=
   | TList a, TList c => ty_eqb a c
   | TSet a, TSet c => ty_eqb a c
   | TMap a b, TMap c d => ty_eqb a c && ty_eqb b d
+  | TLambda a b, TLambda c d => ty_eqb a c && ty_eqb b d
   | _, _ => false
   end.
 
@@ -108,7 +111,8 @@ Inductive instr : Type :=
 | I_LSL | I_LSR
 | I_SLICE
 | I_CONCAT
-| I_FAILWITH.
+| I_FAILWITH
+| I_LAMBDA (a b : ty) (body : instr) | I_EXEC | I_APPLY.   (* outside the proved fragment *)
 
 (* The fragment for which the simulation / preservation theorems are PROVED. At stage 1 it is the whole AST;
    when the AST grows ahead of the proofs the new constructors are excluded here. *)
@@ -116,6 +120,7 @@ Fixpoint in_fragmentb (i : instr) : bool :=
   match i with
   | I_SEQ a b | I_IF a b | I_IF_NONE a b | I_IF_LEFT a b | I_IF_CONS a b => in_fragmentb a && in_fragmentb b
   | I_DIP _ c | I_LOOP c | I_LOOP_LEFT c | I_ITER c | I_MAP c => in_fragmentb c
+  | I_LAMBDA _ _ _ | I_EXEC | I_APPLY => false
   | _ => true
   end.
 Definition in_fragment (i : instr) : Prop := in_fragmentb i = true.
@@ -167,7 +172,8 @@ Inductive value : Type :=
 | VRight (v : value)
 | VList (l : list value)
 | VSet (l : list value)     (* elements in strictly increasing order *)
-| VMap (l : list value).    (* entries VPair k v, keys in strictly increasing order *)
+| VMap (l : list value)     (* entries VPair k v, keys in strictly increasing order *)
+| VLam (a b : ty) (body : instr).   (* a lambda value: code with its argument and result types *)
 
 Fixpoint value_of_data (d : data) : value :=
   match d with
@@ -335,7 +341,8 @@ Inductive pval : Type :=
 | PRight (t : ty) (v : pval)
 | PList (t : ty) (l : list pval)   (* ListType: class argument + Python list *)
 | PSet (t : ty) (l : list pval)    (* SetType: class argument + sorted Python list *)
-| PMap (kt vt : ty) (l : list pval).  (* MapType: items = [(key, value)...], an entry is written PPair key value *)
+| PMap (kt vt : ty) (l : list pval)   (* MapType: items = [(key, value)...], an entry is written PPair key value *)
+| PLam (a b : ty) (body : instr).     (* LambdaType(args=[a, b]) holding the body *)
 
 (* type(v).as_micheline_expr(), annotations erased *)
 Fixpoint rt_type (v : pval) : ty :=
@@ -358,6 +365,7 @@ Fixpoint rt_type (v : pval) : ty :=
   | PList t _ => TList t
   | PSet t _ => TSet t
   | PMap kt vt _ => TMap kt vt
+  | PLam a b _ => TLambda a b
   end.
 
 (* Python's < on str restricted to ASCII *)
@@ -451,6 +459,7 @@ Fixpoint pv_typedb (v : pval) (t : ty) {struct v} : bool :=
       ty_eqb kt a && ty_eqb vt b
       && forallb (fun x => match x with PPair k v => pv_typedb k a && pv_typedb v b | _ => false end) l
       && py_strict_sorted (map py_key l)
+  | PLam a b _, TLambda a' b' => ty_eqb a a' && ty_eqb b b'   (* the body is not re-checked (lambdas are outside the proved fragment) *)
   | _, _ => false
   end.
 
@@ -475,6 +484,7 @@ Fixpoint erase (v : pval) : value :=
   | PList _ l => VList (map erase l)
   | PSet _ l => VSet (map erase l)
   | PMap _ _ l => VMap (map erase l)
+  | PLam a b body => VLam a b body
   end.
 
 (* MichelsonType.from_micheline_value, type-directed; None = the literal is rejected *)
@@ -535,7 +545,145 @@ Fixpoint py_of_data (t : ty) (d : data) {struct d} : option pval :=
   | _, _ => None
   end.
 
+(* the literal denoting a run-time value (used by APPLY, which builds { PUSH ty literal ; PAIR ; body }).
+   None: no literal in the fragment (lambdas, addresses, chain ids) *)
+Fixpoint data_of_value (t : ty) (v : value) {struct v} : option data :=
+  match v, t with
+  | VInt z, (TInt | TNat | TTimestamp) => Some (DInt z)
+  | VMutez z, TMutez => Some (DMutez z)
+  | VStr s, TString => Some (DStr s)
+  | VStr s, TBytes => Some (DBytes s)
+  | VBool b, TBool => Some (DBool b)
+  | VUnit, TUnit => Some DUnit
+  | VPair x y, TPair a b => match data_of_value a x, data_of_value b y with
+                            | Some dx, Some dy => Some (DPair dx dy)
+                            | _, _ => None
+                            end
+  | VNone, TOption _ => Some DNone
+  | VSome x, TOption a => option_map DSome (data_of_value a x)
+  | VLeft x, TOr a _ => option_map DLeft (data_of_value a x)
+  | VRight x, TOr _ b => option_map DRight (data_of_value b x)
+  | VList l, TList a =>
+      option_map DList ((fix go (l : list value) : option (list data) :=
+                           match l with
+                           | [] => Some []
+                           | x :: r => match data_of_value a x, go r with
+                                       | Some d, Some ds => Some (d :: ds)
+                                       | _, _ => None
+                                       end
+                           end) l)
+  | VSet l, TSet a =>
+      option_map DSet ((fix go (l : list value) : option (list data) :=
+                          match l with
+                          | [] => Some []
+                          | x :: r => match data_of_value a x, go r with
+                                      | Some d, Some ds => Some (d :: ds)
+                                      | _, _ => None
+                                      end
+                          end) l)
+  | VMap l, TMap a b =>
+      option_map DMap ((fix go (l : list value) : option (list data) :=
+                          match l with
+                          | [] => Some []
+                          | VPair k x :: r => match data_of_value a k, data_of_value b x, go r with
+                                              | Some dk, Some dx, Some ds => Some (DPair dk dx :: ds)
+                                              | _, _, _ => None
+                                              end
+                          | _ :: _ => None
+                          end) l)
+  | _, _ => None
+  end.
+
+(* value.to_literal() *)
+Fixpoint data_of_pval (v : pval) : option data :=
+  match v with
+  | PInt z | PNat z | PTimestamp z => Some (DInt z)
+  | PMutez z => Some (DMutez z)
+  | PStr s => Some (DStr s)
+  | PBytes s => Some (DBytes s)
+  | PBool b => Some (DBool b)
+  | PUnit => Some DUnit
+  | PPair x y => match data_of_pval x, data_of_pval y with
+                 | Some dx, Some dy => Some (DPair dx dy)
+                 | _, _ => None
+                 end
+  | PNone _ => Some DNone
+  | PSome x => option_map DSome (data_of_pval x)
+  | PLeft x _ => option_map DLeft (data_of_pval x)
+  | PRight _ x => option_map DRight (data_of_pval x)
+  | PList _ l =>
+      option_map DList ((fix go (l : list pval) : option (list data) :=
+                           match l with
+                           | [] => Some []
+                           | x :: r => match data_of_pval x, go r with
+                                       | Some d, Some ds => Some (d :: ds)
+                                       | _, _ => None
+                                       end
+                           end) l)
+  | PSet _ l =>
+      option_map DSet ((fix go (l : list pval) : option (list data) :=
+                          match l with
+                          | [] => Some []
+                          | x :: r => match data_of_pval x, go r with
+                                      | Some d, Some ds => Some (d :: ds)
+                                      | _, _ => None
+                                      end
+                          end) l)
+  | PMap _ _ l =>
+      option_map DMap ((fix go (l : list pval) : option (list data) :=
+                          match l with
+                          | [] => Some []
+                          | x :: r => match data_of_pval x, go r with
+                                      | Some d, Some ds => Some (d :: ds)
+                                      | _, _ => None
+                                      end
+                          end) l)
+  | PAddress _ | PChainId _ | PLam _ _ _ => None
+  end.
+
 (* ---- boolean equalities (used by the correspondence harness and by run-time type checks) ---- *)
+Fixpoint data_eqb (x y : data) {struct x} : bool :=
+  match x, y with
+  | DInt a, DInt b | DMutez a, DMutez b => Z.eqb a b
+  | DStr a, DStr b | DBytes a, DBytes b => bytes_eqb a b
+  | DBool a, DBool b => Bool.eqb a b
+  | DUnit, DUnit => true
+  | DPair a b, DPair c d => data_eqb a c && data_eqb b d
+  | DNone, DNone => true
+  | DSome a, DSome b | DLeft a, DLeft b | DRight a, DRight b => data_eqb a b
+  | DList l1, DList l2 | DSet l1, DSet l2 | DMap l1, DMap l2 =>
+      (fix go (l1 l2 : list data) : bool :=
+         match l1, l2 with
+         | [], [] => true
+         | a :: r1, b :: r2 => data_eqb a b && go r1 r2
+         | _, _ => false
+         end) l1 l2
+  | _, _ => false
+  end.
+
+Fixpoint instr_eqb (x y : instr) {struct x} : bool :=
+  match x, y with
+  | I_NOOP, I_NOOP | I_SWAP, I_SWAP | I_PAIR, I_PAIR | I_UNPAIR, I_UNPAIR | I_CAR, I_CAR | I_CDR, I_CDR
+  | I_SOME, I_SOME | I_UNIT, I_UNIT | I_CONS, I_CONS | I_SIZE, I_SIZE | I_MEM, I_MEM | I_GET, I_GET | I_UPDATE, I_UPDATE
+  | I_GET_AND_UPDATE, I_GET_AND_UPDATE | I_ADD, I_ADD | I_SUB, I_SUB | I_MUL, I_MUL | I_NEG, I_NEG | I_ABS, I_ABS
+  | I_ISNAT, I_ISNAT | I_INT, I_INT | I_EDIV, I_EDIV | I_SUB_MUTEZ, I_SUB_MUTEZ | I_AMOUNT, I_AMOUNT | I_BALANCE, I_BALANCE
+  | I_SENDER, I_SENDER | I_SOURCE, I_SOURCE | I_SELF_ADDRESS, I_SELF_ADDRESS | I_NOW, I_NOW | I_LEVEL, I_LEVEL
+  | I_CHAIN_ID, I_CHAIN_ID | I_COMPARE, I_COMPARE | I_EQ, I_EQ | I_NEQ, I_NEQ | I_LT, I_LT | I_GT, I_GT | I_LE, I_LE
+  | I_GE, I_GE | I_AND, I_AND | I_OR, I_OR | I_XOR, I_XOR | I_NOT, I_NOT | I_LSL, I_LSL | I_LSR, I_LSR | I_SLICE, I_SLICE
+  | I_CONCAT, I_CONCAT | I_FAILWITH, I_FAILWITH | I_EXEC, I_EXEC | I_APPLY, I_APPLY => true
+  | I_SEQ a b, I_SEQ c d | I_IF a b, I_IF c d | I_IF_NONE a b, I_IF_NONE c d | I_IF_LEFT a b, I_IF_LEFT c d
+  | I_IF_CONS a b, I_IF_CONS c d => instr_eqb a c && instr_eqb b d
+  | I_DROP n, I_DROP m | I_DUP n, I_DUP m | I_DIG n, I_DIG m | I_DUG n, I_DUG m | I_PAIRN n, I_PAIRN m
+  | I_UNPAIRN n, I_UNPAIRN m | I_GETN n, I_GETN m | I_UPDATEN n, I_UPDATEN m => Nat.eqb n m
+  | I_PUSH t d, I_PUSH u f => ty_eqb t u && data_eqb d f
+  | I_DIP n a, I_DIP m b => Nat.eqb n m && instr_eqb a b
+  | I_LOOP a, I_LOOP b | I_LOOP_LEFT a, I_LOOP_LEFT b | I_ITER a, I_ITER b | I_MAP a, I_MAP b => instr_eqb a b
+  | I_LEFT t, I_LEFT u | I_RIGHT t, I_RIGHT u | I_NONE t, I_NONE u | I_NIL t, I_NIL u | I_EMPTY_SET t, I_EMPTY_SET u => ty_eqb t u
+  | I_EMPTY_MAP k v, I_EMPTY_MAP k' v' => ty_eqb k k' && ty_eqb v v'
+  | I_LAMBDA a b c, I_LAMBDA a' b' c' => ty_eqb a a' && ty_eqb b b' && instr_eqb c c'
+  | _, _ => false
+  end.
+
 Fixpoint value_eqb (x y : value) {struct x} : bool :=
   match x, y with
   | VInt a, VInt b => Z.eqb a b
@@ -548,6 +696,7 @@ Fixpoint value_eqb (x y : value) {struct x} : bool :=
   | VSome a, VSome b => value_eqb a b
   | VLeft a, VLeft b => value_eqb a b
   | VRight a, VRight b => value_eqb a b
+  | VLam a b c, VLam a' b' c' => ty_eqb a a' && ty_eqb b b' && instr_eqb c c'
   | VList l1, VList l2 | VSet l1, VSet l2 | VMap l1, VMap l2 =>
       (fix go (l1 l2 : list value) : bool :=
          match l1, l2 with
@@ -575,6 +724,7 @@ Fixpoint pval_eqb (x y : pval) {struct x} : bool :=
   | PSome a, PSome b => pval_eqb a b
   | PLeft a t, PLeft b u => pval_eqb a b && ty_eqb t u
   | PRight t a, PRight u b => ty_eqb t u && pval_eqb a b
+  | PLam a b c, PLam a' b' c' => ty_eqb a a' && ty_eqb b b' && instr_eqb c c'
   | PList t l1, PList u l2 | PSet t l1, PSet u l2 =>
       ty_eqb t u &&
       (fix go (l1 l2 : list pval) : bool :=
